@@ -1196,7 +1196,10 @@ EGLPNUM_TYPENAME_QSLIB_INTERFACE int EGLPNUM_TYPENAME_QSdelete_rows (
 	rval = check_qsdata_pointer (p);
 	CHECKRVALG (rval, CLEANUP);
 
-	rval = EGLPNUM_TYPENAME_ILLlib_delrows (p->lp, p->basis, p->cache, num, dellist, &basis_ok,
+	/* the cached solution can stay when only basic rows go - basic in the basis
+	 * it was computed from, which a basis loaded since the solve is not */
+	rval = EGLPNUM_TYPENAME_ILLlib_delrows (p->lp, p->basis,
+												 p->factorok ? p->cache : 0, num, dellist, &basis_ok,
 												 &cache_ok);
 	CHECKRVALG (rval, CLEANUP);
 
